@@ -1,8 +1,9 @@
 """C08 Type sizes, alignments and layouts equal the psABI (DESIGN.md §3 C08)."""
-import itertools, json, os, subprocess
+import itertools, json, os, subprocess, time
 from ..interp import Interp, Obj, Sym, View, vkey, _Ref, _ValPlace
 from ..build import AnalysisBroken
-from ..lib_c08 import Fn, Summary, select, Uninterpretable, StepInterp, int_locals_written_in, find_member_loop
+from ..lib_c08 import (Fn, Summary, select, Uninterpretable, StepInterp, int_locals_written_in, find_member_loop,
+                       IterInterp, enclosing_loops, generic_args, may_write_through)
 
 PU = 'parse.c'
 
@@ -23,11 +24,12 @@ def run(P, rep, tier):
     rep.assumptions += [
         'calloc succeeds and zero-fills', 'equal()/consume()/skip() compare a token with a spelling (tokenize.c)',
         'layout grid: running offset 0..287 bits, bit-field types of 1,2,4,8 bytes with every width 1..8*size, member sizes 0..48, alignments 1..16; values never overflow int',
-        'a struct_union_decl() result has size 0 (complete) or -1 (forward declaration) and alignment >= 1',
+        'a struct_union_decl() result has size 0 (complete; checked for definitions by R08.3 definition/*/complete) or -1 (forward declaration) and alignment >= 1',
+        'struct_members() writes members/is_flexible of the type it is given and attribute_list() is_packed/align (each checked on its own); declspec() only adds to *attr',
         'packed + explicit member _Alignas is outside the oracle (GNU extension interplay); packed layouts are compared with gcc, the rest with psABI 3.1.2',
     ]
     import traceback
-    for rule, f in (('R08.3', r083), ('R08.2', r082), ('R08.1', r081), ('R08.4', r084), ('R08.4', r084_alignas_specifier), ('R08.5', r085)):
+    for rule, f in (('R08.3', r083), ('R08.2', r082), ('R08.1', r081), ('R08.4', r084), ('R08.4', r084_alignas_specifier), ('R08.4', r084_specifier_state), ('R08.5', r085)):
         try:
             f(P, u, rep)
         except AnalysisBroken as ex:          # one rule's anchors vanishing must not silence the others
@@ -53,6 +55,8 @@ CLASSES = [
     ('member',                         False, True,  False, None, False),
     ('alignas-member',                 False, True,  False, None, False),
     ('member-after-bits',              False, True,  False, None, True),
+    ('anonymous-member',               False, False, False, None, False),      # `struct {...};` / `union {...};`: no name, not a bit-field
+    ('alignas-anonymous-member',       False, False, False, None, False),
     ('bitfield',                       True,  True,  False, lambda e: not _crossing(e), False),
     ('bitfield-crossing-unit',         True,  True,  False, _crossing, True),
     ('unnamed-bitfield',               True,  False, False, lambda e: not _crossing(e), False),
@@ -90,7 +94,7 @@ def grid(cls, packed, union):
     for TA in ALIGNS:
         for mult in (0, 1, 2, 3):
             S = TA * mult
-            if name == 'alignas-member':
+            if name.startswith('alignas-'):
                 if packed:
                     continue
                 for MA in ALIGNS:
@@ -161,7 +165,7 @@ def describe(cls, packed, e, union):
     elif bitfield:
         m = '%s %d-bit bit-field of a %d-byte type' % ('named' if named else 'unnamed', e['W'], e['S'])
     else:
-        m = 'member of size %d, type alignment %d%s' % (e['S'], e['TA'], (', _Alignas(%d)' % e['MA']) if e['MA'] != e['TA'] else '')
+        m = '%smember of size %d, type alignment %d%s' % ('' if named else 'anonymous struct/union ', e['S'], e['TA'], (', _Alignas(%d)' % e['MA']) if e['MA'] != e['TA'] else '')
     if union:
         st = 'union so far: size %d, align %d' % (e['Z'], e['A'])
     else:
@@ -383,10 +387,12 @@ def _guarded(rep, key, f, *a):
 
 def r083(P, u, rep):
     rep.rule('R08.3', 'struct_decl/union_decl lay one more member out exactly as psABI 3.1.2 prescribes (placement, bit-field units, alignment contribution, packed) '
-             'and round the final size to the alignment; struct and union take a member\'s alignment from the same source; attributes and flexible arrays reach the layout', floor=50)
+             'and round the final size to the alignment; struct and union take a member\'s alignment from the same source; attributes (before the tag and after the brace, for new, '
+             'known and absent tags) and flexible arrays reach the type that is laid out', floor=74)
     _guarded(rep, '%s:struct_decl:layout' % PU, layout_fn, P, u, rep, 'struct_decl', False)
     _guarded(rep, '%s:union_decl:layout' % PU, layout_fn, P, u, rep, 'union_decl', True)
     _guarded(rep, '%s:attribute_list:attributes' % PU, r083_attributes, P, u, rep)
+    _guarded(rep, '%s:struct_union_decl:definition' % PU, r083_definition, P, u, rep)
 
 
 # =====================================================================================
@@ -814,6 +820,347 @@ def r083_attributes(P, u, rep):
         rep.ob('R08.3', key, not bad, '`struct %s {...}`: %s (the layout loops read these two fields)' % (spelled, '; '.join(bad)), where=where)
 
 
+# =====================================================================================
+# R08.3 (cont.) the type struct_union_decl() hands to the layout carries members and attributes
+# =====================================================================================
+def r083_definition(P, u, rep):
+    """struct_union_decl() is executed with struct_members()/attribute_list() replaced by their effects on the
+    type object they are given; whichever object is returned for a definition (fresh, or the earlier incomplete
+    type of the same tag that the definition completes) must show all of these effects, because struct_decl /
+    union_decl lay out exactly the returned object."""
+    fname = 'struct_union_decl'
+    fn = u.fn(fname)
+    base = '%s:%s:definition' % (PU, fname)
+    if fn is None:
+        rep.undecided('R08.3', base, 'struct_union_decl() vanished')
+        return
+    where = '%s:%d' % (PU, fn.line)
+    tu = P.unit('type.c')
+    callees = {}
+    for c in fn.calls():
+        if c.callee():
+            callees.setdefault(c.callee(), c)
+    for need in ('attribute_list', 'struct_members'):
+        if need not in callees:
+            rep.undecided('R08.3', base, 'struct_union_decl() does not call %s() any more: shape not recognised' % need, where=where)
+            return
+    # type lookups (tag scope): calls that yield a `Type *` and are not constructors of type.c
+    lookups = set()
+    for name, c in callees.items():
+        t = ' '.join((c.dtype or c.type or '').split())
+        if t in ('Type *', 'void *', 'struct Type *') and name not in tu.functions and name not in ('calloc', 'malloc'):
+            lookups.add(name)
+    opaque = sorted(n for n in callees if n not in lookups and n not in tu.functions and n not in ('attribute_list', 'struct_members'))
+    results = {}       # (tagcase, what) -> [ok, msg]
+    seen = set()
+    for scenario in ('none', 'leading', 'trailing'):
+        def cut_attr(it, ctx, call, args, scenario=scenario):
+            ty = args[1] if len(args) > 1 else None
+            ty = it.settle(ty) if isinstance(ty, View) else ty
+            after = getattr(ctx, 'c08_members', None) is not None
+            if not isinstance(ty, Obj):
+                raise AnalysisBroken('attribute_list() is applied to %r, not to a type object' % (ty,))
+            if scenario != 'none' and (scenario == 'trailing') == after:
+                ty.fields['is_packed'] = 1
+                ty.fields['align'] = Sym('AL', 'int')
+            return Obj('Token', lazy=True, label='after-attributes')
+
+        def cut_members(it, ctx, call, args):
+            rest, tok, ty = (list(args) + [None] * 3)[:3]
+            ty = it.settle(ty) if isinstance(ty, View) else ty
+            if not (isinstance(ty, Obj) and isinstance(rest, _Ref)):
+                raise AnalysisBroken('struct_members() called with unexpected arguments')
+            m = Obj('Member', lazy=True, label='members')
+            ty.fields['members'] = m
+            ty.fields['is_flexible'] = Sym('FLEX', 'int')
+            rest.place.set(it, Obj('Token', lazy=True, label='after-members'))
+            ctx.c08_members = m
+            return None
+
+        def cut_lookup(it, ctx, call, args):
+            if ctx.choose(2, 'tag lookup'):
+                ctx.note('the tag already names a type in scope')
+                o = Obj('Type', lazy=False, label='earlier type of the tag')
+                o.fields.update({'size': -1, 'align': 1, 'is_packed': 0, 'members': 0, 'is_flexible': 0})
+                ctx.c08_lookup = 'known-tag'
+                return o
+            ctx.note('the tag is new')
+            ctx.c08_lookup = 'new-tag'
+            return 0
+        cuts = {'attribute_list': cut_attr, 'struct_members': cut_members}
+        for l in lookups:
+            cuts[l] = cut_lookup
+        it = Interp(P, u, {'opaque': opaque, 'cut': cuts, 'loop_limit': 1, 'track_stores': False})
+        try:
+            paths = it.explore(fname, generic_args(u, fname), max_paths=2000)
+        except AnalysisBroken as ex:
+            rep.undecided('R08.3', base, 'struct_union_decl() not interpretable: %s' % ex, where=where)
+            return
+        for ctx, out in paths:
+            m = getattr(ctx, 'c08_members', None)
+            if m is None:
+                continue            # reference or forward declaration: nothing is laid out
+            case = getattr(ctx, 'c08_lookup', 'untagged')
+            seen.add(case)
+            if out[0] != 'ret':
+                k = (case, 'complete')
+                results[k] = [False, 'a struct/union definition (%s) ends in %s() after its members were read' % (case, out[1])]
+                continue
+            t = out[1]
+            t = it.settle(t) if isinstance(t, View) else t
+            if not isinstance(t, Obj):
+                results[(case, 'complete')] = [None, 'the value returned for a definition is %r, not a type object' % (t,)]
+                continue
+
+            def fld(f):
+                v = t.fields.get(f, 0)
+                return it.settle(v) if isinstance(v, View) else v
+
+            def put(what, ok, msg):
+                cur = results.get((case, what))
+                if cur is None or (cur[0] and not ok):
+                    results[(case, what)] = [ok, msg]
+            tagtxt = {'untagged': 'an untagged struct/union', 'new-tag': 'a struct/union whose tag is new in the scope',
+                      'known-tag': 'a struct/union whose tag was already declared (forward declaration, or `struct T *` inside its own body)'}[case]
+            ok_m = fld('members') is m and _is_just(fld('is_flexible'), 'FLEX')
+            put('members', ok_m, 'the type returned for the definition of %s does not carry the member list / flexible-array flag that struct_members() produced: it is laid out without them' % tagtxt)
+            pk, al = fld('is_packed'), fld('align')
+            if scenario == 'none':
+                sz = fld('size')
+                ok = isinstance(sz, int) and sz == 0 and isinstance(al, int) and al == 1 and isinstance(pk, (int, bool)) and not pk
+                put('complete', ok, 'the type returned for the definition of %s without attributes has size %r, alignment %r, is_packed %r before layout; '
+                    'struct_decl/union_decl expect a complete empty type (size 0, alignment 1, not packed)' % (tagtxt, sz, al, pk))
+            else:
+                ok = isinstance(pk, (int, bool)) and bool(pk) and _is_just(al, 'AL')
+                pos = 'before the tag' if scenario == 'leading' else 'after the closing brace'
+                put(scenario + '-attributes', ok, '__attribute__((packed, aligned(N))) written %s of %s does not reach the type that is laid out '
+                    '(returned type: is_packed %r, alignment %r): its members are placed and its size is computed as if the attribute were absent' % (pos, tagtxt, pk, al))
+    for case in ('untagged', 'new-tag', 'known-tag'):
+        if case not in seen:
+            rep.undecided('R08.3', '%s/%s' % (base, case), 'no path of struct_union_decl() reads a member list for this kind of tag', where=where)
+            continue
+        for what in ('members', 'complete', 'leading-attributes', 'trailing-attributes'):
+            key = '%s/%s/%s' % (base, case, what)
+            r = results.get((case, what))
+            if r is None:
+                rep.undecided('R08.3', key, 'no returning path to judge', where=where)
+            elif r[0] is None:
+                rep.undecided('R08.3', key, r[1], where=where)
+            else:
+                rep.ob('R08.3', key, bool(r[0]), r[1], where=where)
+
+
+# =====================================================================================
+# R08.4 (cont.) specifier state is per declaration
+# =====================================================================================
+def r084_specifier_state(P, u, rep):
+    """declspec() only ever adds to *attr (an _Alignas value, storage classes). Every function that owns a VarAttr and
+    hands it to declspec() is explored with two rounds of the loop around that call; the first declaration sets every
+    field, the later ones none: the state declspec() receives must be all-zero each time, and a member created by a
+    later declaration must get its type's alignment."""
+    rec = u.records.get('VarAttr')
+    if rec is None:
+        raise AnalysisBroken('record VarAttr vanished from %s' % PU)
+    fields = [f for f, _t, _b in rec]
+    sites = {}
+    for fname, fd in sorted(u.functions.items()):
+        for c in fd.calls('declspec'):
+            a = c.args()
+            if len(a) < 3:
+                continue
+            x = a[2].strip()
+            if x.kind == 'UnaryOperator' and x.opcode == '&':
+                r = x.inner[0].strip()
+                if r.kind == 'DeclRefExpr' and r.ref_kind == 'VarDecl':
+                    sites.setdefault(fname, []).append(c)
+    if not sites:
+        rep.undecided('R08.4', '%s:declspec:specifier-state' % PU, 'no function hands the address of its own VarAttr to declspec(): shape not recognised')
+        return
+    sym_of = lambda f: ('AL1' if f == 'align' else f + '1')
+    for fname, calls in sites.items():
+        fd = u.fn(fname)
+        where = '%s:%d' % (PU, fd.line)
+        key = '%s:%s:declspec/fresh-specifier-state' % (PU, fname)
+        deep = set()
+        for c in calls:
+            deep |= enclosing_loops(c, fd)
+        opaque = set()
+        writers = {}       # callee -> argument positions through which it may modify a VarAttr
+        for c in fd.calls():
+            name = c.callee()
+            if not name or name == 'declspec':
+                continue
+            t = ' '.join((c.dtype or c.type or '').split())
+            if t not in ('Member *', 'struct Member *'):     # a helper that builds the member is looked into
+                opaque.add(name)
+            for i, a in enumerate(c.args()):
+                at = ' '.join((a.strip().dtype or a.strip().type or '').split()).replace('struct ', '')
+                if at == 'VarAttr *':
+                    if name in ('memset',) or may_write_through(u, name, i):
+                        writers.setdefault(name, set()).add(i)
+        opaque = sorted(opaque)
+
+        def cut_declspec(it, ctx, call, args):
+            a = args[2] if len(args) > 2 else None
+            a = it.settle(a) if isinstance(a, View) else a
+            n = getattr(ctx, 'c08_nds', 0) + 1
+            ctx.c08_nds = n
+            state = None
+            if isinstance(a, Obj) and not a.lazy:
+                state = {}
+                for f in fields:
+                    v = a.fields.get(f, 0)
+                    v = it.settle(v) if isinstance(v, View) else v
+                    if not (isinstance(v, (int, bool)) and not v):
+                        state[f] = v
+                if n == 1:
+                    for f in fields:
+                        a.fields[f] = Sym(sym_of(f), 'int')
+                    ctx.bounds[('sym', 'AL1')] = [1, 1 << 20]      # an _Alignas that has an effect
+                    ctx.neq[('sym', 'AL1')] = {0}
+            ctx.note('declaration %d' % n)
+            ctx.emit('declspec', n, state)
+            t = Obj('Type', lazy=True, label='basety')
+            if n == 1 and 'TY_INT' in u.enums:
+                t.fields['kind'] = u.enums['TY_INT']     # the first declaration only has to leave state behind: one shape is enough
+            return t
+
+        def mk_writer(name, positions):
+            def h(it, ctx, call, args):
+                for i in positions:
+                    a = args[i] if i < len(args) else None
+                    a = it.settle(a) if isinstance(a, View) else a
+                    if isinstance(a, Obj) and a.tname == 'VarAttr' and not a.lazy:
+                        if name == 'memset' and i == 0 and len(args) > 1 and isinstance(args[1], int) and args[1] == 0:
+                            for f in fields:
+                                a.fields[f] = 0
+                        else:
+                            for f in fields:
+                                a.fields[f] = Sym('unknown-after-%s' % name, 'int')
+                t = call.dtype or call.type
+                r = None if t == 'void' else (args[0] if name == 'memset' else it.lazy_value(t, ctx.fresh(name)))
+                ctx.emit('call', name, args, call.line, r)
+                return r
+            return h
+        cuts = {'declspec': cut_declspec}
+        for name, positions in writers.items():
+            cuts[name] = mk_writer(name, sorted(positions))
+        it = IterInterp(P, u, {'opaque': opaque, 'cut': cuts, 'loop_limit': 1, 'forever_limit': 2, 'track_stores': True})
+        it.deep = frozenset(deep)
+        it.deadline = time.time() + 8
+        try:
+            paths = it.explore(fname, generic_args(u, fname), max_paths=3000)
+        except AnalysisBroken as ex:
+            rep.undecided('R08.4', key, 'declaration loop of %s() not interpretable: %s' % (fname, ex), where=where)
+            continue
+        most = 0
+        stale = unknown = None
+        first = set(sym_of(f) for f in fields)
+        for ctx, out in paths:
+            for e in ctx.events:
+                if e[0] == 'declspec' and e[2] is not None:
+                    most = max(most, e[1])
+                    left = []
+                    for f, v in sorted(e[2].items()):
+                        try:
+                            if Fn(v).syms & first:
+                                left.append(f)
+                        except Uninterpretable:
+                            pass
+                    if left and stale is None:
+                        stale = (e[1], left, ctx.trail[-8:])
+                    elif e[2] and not left and unknown is None:
+                        unknown = (e[1], sorted('%s = %r' % kv for kv in e[2].items()))
+        if most < (2 if deep else 1):
+            rep.undecided('R08.4', key, 'no path of %s() reaches declspec() %s with a VarAttr of its own' % (fname, 'a second time' if deep else ''), where=where)
+        elif stale is None and unknown is not None:
+            rep.undecided('R08.4', key, 'the specifier state handed to declspec() for declaration %d of %s() is not known to be zero (%s)' % (unknown[0], fname, ', '.join(unknown[1])), where=where)
+        else:
+            rep.ob('R08.4', key, stale is None, stale and (
+                'in %s() the specifier state handed to declspec() for declaration %d still holds %s of the previous declaration (declspec() only adds to it): '
+                'an _Alignas (or storage class) written on one declaration is applied to the declarations that follow it%s' % (
+                    fname, stale[0], '/'.join(stale[1]), ' - later members are over-aligned, offsets and sizeof change' if fname == 'struct_members' else '')) or '',
+                where=where, facts={'path': stale[2]} if stale else None)
+        _members_after_aligned_declaration(rep, u, it, paths, fname, where, [sym_of(f) for f in fields])
+
+
+def _members_after_aligned_declaration(rep, u, it, paths, fname, where, first_syms):
+    """Member objects created by declaration >= 2 (which has no _Alignas) after a first declaration with _Alignas(32)"""
+    res = {}
+    broken = None
+    for ctx, out in paths:
+        if out[0] != 'ret':
+            continue
+        n = 0
+        born = {}        # id(obj) -> (obj, declaration index)
+        for e in ctx.events:
+            if e[0] == 'declspec':
+                n = e[1]
+            elif e[0] == 'fstore' and isinstance(e[1], Obj) and e[1].tname == 'Member' and not e[1].lazy and id(e[1]) not in born:
+                born[id(e[1])] = (e[1], n)
+        late = [o for o, k in born.values() if k >= 2]
+        if not late:
+            continue
+        try:
+            guards = Summary(ctx, {})
+        except Uninterpretable as ex:
+            broken = str(ex)
+            continue
+        for o in late:
+            ty = ty_at_store = None
+            for e in ctx.events:
+                if e[0] == 'fstore' and e[1] is o:
+                    if e[2] == 'ty':
+                        ty = e[4]
+                    elif e[2] == 'align':
+                        ty_at_store = ty
+            ty = ty_at_store if ty_at_store is not None else ty
+            ty = it.settle(ty) if isinstance(ty, View) else ty
+            if not isinstance(ty, Obj):
+                broken = 'type of a member is %r' % (ty,)
+                continue
+            flavour = 'anonymous-member' if ty.label == 'basety' else 'member'
+            tyal = ty.fields.get('align')
+            if tyal is None and ty.lazy:
+                tyal = it.read_field(ty, 'align')
+            got = o.fields.get('align', 0)
+            got = it.settle(got) if isinstance(got, View) else got
+            try:
+                fgot, ftyal = Fn(got), Fn(tyal)
+            except Uninterpretable as ex:
+                broken = str(ex)
+                continue
+            if len(ftyal.syms) != 1:
+                broken = 'alignment of the declared type is not a single unknown (%r)' % (tyal,)
+                continue
+            tsym = list(ftyal.syms)[0]
+            for TAL in (1, 4, 8):
+                e = {s_: 0 for s_ in (guards.syms() | fgot.syms)}
+                for s_ in first_syms:
+                    e[s_] = 32 if s_.startswith('AL') else 1
+                e[tsym] = TAL
+                try:
+                    if not guards.applies(e):
+                        continue
+                    g = fgot(e)
+                except (KeyError, ZeroDivisionError) as ex:
+                    broken = 'path condition not evaluable: %r' % (ex,)
+                    continue
+                ok = g == TAL
+                cur = res.get(flavour)
+                if cur is None or (cur[0] and not ok):
+                    res[flavour] = [ok, 'a struct %s declared without _Alignas, in a declaration that follows one with _Alignas(32), whose type has alignment %d gets alignment %d: '
+                                    'the specifier of the earlier declaration is applied to it (its offset, and the size/alignment of the struct, differ from the psABI)' % (
+                                        flavour.replace('-', ' '), TAL, g), {'path': ctx.trail[-10:], 'alignment': fgot.text}]
+    if not res and broken is None:
+        return                # this site creates no members
+    base = '%s:%s:alignas' % (PU, fname)
+    if not res:
+        rep.undecided('R08.4', base + '/after-aligned-declaration', 'members of a second declaration not interpretable: %s' % broken, where=where)
+    for flavour, (ok, msg, facts) in sorted(res.items()):
+        rep.ob('R08.4', '%s/%s/after-aligned-declaration' % (base, flavour), ok, msg, where=where, facts=facts)
+
+
 def r084_alignas_specifier(P, u, rep):
     """declspec: `_Alignas(type)` records the type's alignment, `_Alignas(n)` the constant"""
     fn = u.fn('declspec')
@@ -923,7 +1270,7 @@ def _flexible_array(rep, it, paths, where):
 
 def r084(P, u, rep):
     rep.rule('R08.4', 'sizeof and _Alignof yield the size / the alignment of the operand type as an unsigned long; an _Alignas specifier reaches the '
-             'object or member it declares (else the type\'s alignment) at every declaration site', floor=12)
+             'object or member it declares (else the type\'s alignment) at every declaration site, and only that declaration (specifier state is zeroed per declaration)', floor=17)
     tg = type_globals(P)
     prim = u.fn('primary')
     if prim is None:
